@@ -317,6 +317,11 @@ def run_sweeps(ctx, plan, dis):
         if not ok:
             dis.append(Dis("correspondence", c["input"], c["line"], json.dumps(r), a))
         ctx.cov.count("lean.irq")
+    xl = [(c, l, r) for c in irqs for l, r in c.get("extra_lines", [])]
+    for (c, l, r), a in zip(xl, ctx.lean.call_batch([l for _, l, _ in xl]) if xl else []):
+        ctx.cov.count("lean." + l.split()[0])
+        if a != r:
+            dis.append(Dis("correspondence", c["input"], l[:300], r[:300], a[:300]))
     nl = 0
     for c in irqs:
         for a in c["alarms"]:
